@@ -246,7 +246,7 @@ CLAIMS = {
             "a.(a x b)=0, a x b=-(b x a), Lagrange are re-derived); these operations contain no coercion, division or "
             "float literal; the promotion ranks are user < Fraction < Decimal < float < int with the minimum selected and "
             "applied to every item; both constructors store promoted coordinates on every path; zero() and the unit vectors "
-            "build a fresh Vector on every call (not memoised, no shared state); acos is clamped; length / normalized / unit / angle contain no comparison of a positive-degree quantity of the vector with an absolute threshold (homogeneity-degree domain), so no part of the claimed range of magnitudes is treated as degenerate. NOT decided: the numeric value of |normalized(v)| and of the angle, Decimal behaviour."
+            "build a fresh Vector on every call (not memoised, no shared state); acos is clamped; length / normalized / unit / angle contain no comparison of a positive-degree quantity of the vector with an absolute threshold (homogeneity-degree domain), so no part of the claimed range of magnitudes is treated as degenerate; a constant result of angle() is returned only under a condition that reads the dot product of the operands (R18.7), so opposite directions are never given the angle of equal ones. NOT decided: the numeric value of |normalized(v)| and of the angle, Decimal behaviour."
         ),
         note=NOTE_COMMON + "A rewrite outside the handled fragment (numpy, explicit loops) fails closed with exit 2.",
     ),
